@@ -4,7 +4,7 @@ import PPProofs.Lemmas.ActionGate
 
 Model: `PPModel/Mod/ActionGate.lean` — `parse s fuel e loc do_actions callPreParse` returns the result and the
 trace of fired actions `(id, loc)`; it transcribes the gate `if self.parseAction and (do_actions or
-self.callDuringTry)` (core.py:864) and the trial-matching constructs (Or/Each first pass, SkipTo scan and fail_on,
+self.callDuringTry)` (core.py:870) and the trial-matching constructs (Or/Each first pass, SkipTo scan and fail_on,
 stop_on, NotAny/FollowedBy, Opt, ZeroOrMore, And, MatchFirst).
 `firable da e` (Lemmas) = ids of actions allowed to fire: own actions when `da || call_during_try`; every
 trial-matched position counts with `da = false`.  `hasCdt e` = some element inside `e` has `call_during_try`.
@@ -31,21 +31,21 @@ theorem no_actions_when_trying (s : List Char) (fuel : Nat) (e : E) (loc : Nat) 
   have := parse_sound s fuel e loc false cp
   rwa [firable_false_of_noCdt e h] at this
 
-/-- Or: the first pass (core.py:4275-4300) fires nothing; every event of an `Or` comes from its second pass -/
+/-- Or: the first pass (core.py:4286-4311) fires nothing; every event of an `Or` comes from its second pass -/
 theorem or_first_pass_fires_nothing (s : List Char) (fuel : Nat) (es : List E) (loc : Nat)
     (h : hasCdtL es = false) : (orFirst (parse s fuel) loc es).tr = [] := by
   apply AllIn_nil_eq
   have := (orFirst_sound (parse_sound s fuel) loc es).1
   rwa [firableL_false_of_noCdt es h] at this
 
-/-- Each: the matching-order loop (core.py:4618-4642) fires nothing; events come from the final ordered pass -/
+/-- Each: the matching-order loop (core.py:4629-4653) fires nothing; events come from the final ordered pass -/
 theorem each_first_pass_fires_nothing (s : List Char) (fuel : Nat) (es : List E) (n loc : Nat)
     (h : hasCdtL es = false) : (eachLoop (parse s fuel) n es loc []).2 = [] := by
   apply AllIn_nil_eq
   have := (eachLoop_sound (parse_sound s fuel) es n es loc [] (fun _ h => h) (fun _ h => by cases h)).1
   rwa [firableL_false_of_noCdt es h] at this
 
-/-- SkipTo: scanning for the target and testing `fail_on` (core.py:5507-5535) fires nothing -/
+/-- SkipTo: scanning for the target and testing `fail_on` (core.py:5519-5547) fires nothing -/
 theorem skipTo_scan_fires_nothing (s : List Char) (fuel : Nat) (t : E) (fo : Option E) (n loc : Nat)
     (ht : hasCdt t = false) (hf : hasCdtO fo = false) : (skipScan (parse s fuel) t fo n loc).2 = [] := by
   apply AllIn_nil_eq
@@ -60,7 +60,7 @@ theorem skipTo_without_include_is_silent (s : List Char) (fuel : Nat) (t : E) (f
   have := parse_sound s fuel (.skipTo t fo false) loc da cp
   simpa [firable, firable_false_of_noCdt t ht, firableO_false_of_noCdt fo hf] using this
 
-/-- stop_on: the sentinel test (core.py:5135, 5141) fires nothing -/
+/-- stop_on: the sentinel test (core.py:5147, 5153) fires nothing -/
 theorem stop_on_check_fires_nothing (s : List Char) (fuel : Nat) (st : Option E) (loc : Nat)
     (h : hasCdtO st = false) : (enderCheck (parse s fuel) st loc).2 = [] := by
   apply AllIn_nil_eq
@@ -86,7 +86,7 @@ theorem or_each_skipto_stopon_fire_only_real (s : List Char) (fuel : Nat) (loc :
     simpa [firable, firable_false_of_noCdt t ht, firableO_false_of_noCdt fo hf] using this
 
 /-- **action_loc_is_prestart_partial**: the `loc` every action of an element receives is that element's
-    `tokens_start = pre_loc` (core.py:850, 892).
+    `tokens_start = pre_loc` (core.py:856, 898).
     PARTIAL: that `pre_loc` is the position after whitespace skipping is by the definition of `preLoc`
     (`skipWs` when `callPreParse`, the element's `callPreparse` and `skipWhitespace` hold); no separate
     characterisation of `skipWs` is proved. -/
